@@ -107,10 +107,12 @@ def pre_step(world: World, sim: SimRunner, inputs: InputData):
 
     for suc_sim in sim.successors_to_wait_for:
         suc = suc_sim.sid
-        if sim.last_step >= TieredTime(0):
+        # (Compare the main times; the simulators may be in different
+        # groups and thus have tiered times of different lengths.)
+        if sim.last_step.time >= 0:
             suc_node = (suc, sims[suc].last_step)
             eg.add_edge(suc_node, node_id)
-            assert sims[suc].progress.time + TieredInterval(1) >= next_step
+            assert sims[suc].progress.time.time + 1 >= next_step.time
 
 
 def post_step(world: World, sim: SimRunner):
